@@ -96,6 +96,9 @@ def regenerate(prop, ext):
         if os.path.exists(tmp):
             os.remove(tmp)
         rc, o, dt = run([ext, name, "-repo", REPO, "-out", tmp], cwd=HARN, env=GOENV)
+        if "REBUILD-HARNESS" in o:
+            # the translator regenerated harness sources (X1 stage i: the type registry); vh must be rebuilt
+            regenerate.rebuild = True
         dst = os.path.join(gdir, name + ".lean")
         if rc != 0 or not os.path.exists(tmp):
             # a construct outside the translator's subset: the obligation is broken, not passed
@@ -403,9 +406,14 @@ def main():
     # 2. translators
     genmods, gerr = ([], None)
     if ext:
+        regenerate.rebuild = False
         genmods, gerr = regenerate(prop, ext)
         if gerr:
             violations.append(dict(kind="tie:translator", found=False, detail=gerr[-3000:], lines=[]))
+        elif regenerate.rebuild:
+            vh, ext, err = build_harness(prop)
+            if err:
+                violations.append(dict(kind="tie:harness-build", found=False, detail=err[-3000:], lines=[]))
     # 3. proofs
     if a.skip_lean:
         pr = dict(obligations=0, discharged=0, failed=[], axioms={}, forbidden=[], build_log="", theorems=[])
